@@ -112,7 +112,7 @@ func terminated(tid string, exit int) event.DeviceEvent {
 }
 
 // behaviours of the hook process in one attempt
-var behaviours = []string{"exit0", "exit1", "never", "late0", "late1"}
+var behaviours = []string{"exit0", "exit1", "never", "late0", "late1", "signal"}
 
 func scenario(name string, rounds int, two bool) *vrt.Scenario {
 	var viol []vrt.Violation
@@ -162,6 +162,8 @@ func scenario(name string, rounds int, two bool) *vrt.Scenario {
 							d = time.Second
 						case "exit1":
 							d, exit = time.Second, 1
+						case "signal":
+							d, exit = time.Second, -1 // killed by a signal: exit code -1, reported as a voluntary termination with TASK_FAILED
 						case "late0":
 							d = 8 * time.Second
 						case "late1":
